@@ -105,6 +105,13 @@ class EmptyArr:
     pass
 
 
+class BagCut:
+    """np.searchsorted(sorted_times, v, side): number of elements < v (left) or <= v (right)"""
+
+    def __init__(self, v, side):
+        self.v, self.side = v, side
+
+
 class Mask:
     def __init__(self, parts):
         self.parts = parts
@@ -131,6 +138,14 @@ class Bag:
 
     def __getitem__(self, k):
         w = self.w
+        if isinstance(k, slice) and (isinstance(k.start, BagCut) or isinstance(k.stop, BagCut)):
+            lo, hi = self.lo, self.hi
+            if isinstance(k.start, BagCut):
+                # elements from position `count(< v)` (left) keep tau >= v; from `count(<= v)` (right) keep tau > v
+                lo = ("ge" if k.start.side == "left" else "gt", k.start.v)
+            if isinstance(k.stop, BagCut):
+                hi = ("lt" if k.stop.side == "left" else "le", k.stop.v)
+            return self._copy(lo=lo, hi=hi)
         if isinstance(k, Mask):
             lo, hi = self.lo, self.hi
             for kind, v in k.parts:
@@ -215,6 +230,12 @@ class ZNp:
 
     def searchsorted(self, a, v, side="left", sorter=None):
         w = self.w
+        if isinstance(a, Bag):
+            # position(s) in the sorted measurement array: cut points that a later slice turns into clip bounds
+            w.c.prove("prologue.M.sorted_before_searchsorted", z3.BoolVal(bool(a.sorted)), "np.searchsorted needs a sorted array")
+            vs = list(v) if isinstance(v, (list, tuple)) else [v]
+            cuts = [BagCut(_z(x), side) for x in vs]
+            return cuts if isinstance(v, (list, tuple)) else cuts[0]
         if not isinstance(a, TimeIndex):
             raise Concretization("searchsorted on %r" % (a,))
         v = _z(v)
